@@ -58,7 +58,7 @@ pub fn run(ctx: &Ctx) {
         crate::docspace::Kind::Ws,
         crate::docspace::Kind::Comment,
     ];
-    for cfg in [first, wide_cfg(ctx.tier.pick(4, 5)), deep_cfg(ctx.tier.pick(6, 8))] {
+    for cfg in [first, wide_cfg(ctx.tier.pick(4, 5)), deep_cfg(ctx.tier.pick(6, 8)), entity_cfg(ctx.tier.pick(4, 5))] {
     let describe = cfg.describe();
     let sp = Space::new(cfg);
     let res = par_for(
@@ -68,7 +68,7 @@ pub fn run(ctx: &Ctx) {
         Some(ctx.deadline),
         |_| HashSet::<u64>::new(),
         |acc, i| {
-            let d = DocEntry::from_root(sp.get(i));
+            let d = DocEntry::from_doc(sp.doc(i));
             if i % 97 == 0 {
                 if let Err(e) = self_check(&d) {
                     ctx.machinery_error(e);
